@@ -11,12 +11,14 @@ package tikv
 //@ ghost txn_rollbacks Int
 //@ ghost get_missing Bool
 //@ ghost get_failed Bool
+// get_val: the value the last Get returned
+//@ ghost get_val Slice
 
 // ---- assumed contract of the client library ----
 //@ func @github.com/tikv/client-go/v2/txnkv/transaction.(*KVTxn).Get(ctx, k) (val, err)
 //@   assumed
-//@   modifies ghost.get_missing ghost.get_failed
-//@   ensures [found-or-not] get_failed == (err != nil) && get_missing == (err != nil && tikv_not_found(err))
+//@   modifies ghost.get_missing ghost.get_failed ghost.get_val
+//@   ensures [found-or-not] get_failed == (err != nil) && get_missing == (err != nil && tikv_not_found(err)) && get_val == val
 //@   ensures [foreign-error] err != nil ==> !err_is(err, storage.ErrCASFailed) && !err_is(err, storage.ErrKeyNotFound) && !err_is(err, storage.ErrUncertainResult)
 //@ func @github.com/tikv/client-go/v2/txnkv/transaction.(*KVTxn).Set(k, v) (err)
 //@   assumed
@@ -67,6 +69,8 @@ package tikv
 //@   modifies inferred:(*batch).PutIfNotExist$1
 //@   ensures [never-an-unknown-outcome] err != nil ==> !err_is(err, storage.ErrUncertainResult)
 //@   ensures [present-key-is-a-failed-condition] !get_failed ==> err_is(err, storage.ErrCASFailed) && txn_writes == old(txn_writes)
+// the creator reads the stored index value and the position out of the refusal
+//@   ensures [refusal-carries-the-stored-value-and-its-position] !get_failed ==> typeis(err, "*storage.Conflict") && asptr(err, "*storage.Conflict").Val == get_val && asptr(err, "*storage.Conflict").Idx == idx
 //@   ensures [success-writes-once] err == nil ==> txn_writes == old(txn_writes)+1 && get_missing
 //@   ensures [failure-writes-nothing] err != nil ==> txn_writes == old(txn_writes)
 //@   ensures [other-errors-are-not-conditions] get_failed && !get_missing ==> !err_is(err, storage.ErrCASFailed)
@@ -101,7 +105,7 @@ package tikv
 // any buffered operation, as Commit sees it
 //@ func dyn:func(ctxcontext.Context)error(ctx) (err)
 //@   assumed
-//@   modifies ghost.txn_writes ghost.get_missing ghost.get_failed
+//@   modifies ghost.txn_writes ghost.get_missing ghost.get_failed ghost.get_val
 //@   ensures [never-an-unknown-outcome] err != nil ==> !err_is(err, storage.ErrUncertainResult)
 
 // the deferred rollback of Commit
